@@ -40,7 +40,7 @@ ASSUMPTIONS = [
     "struct.pack raises for out-of-range lengths; len(), tell() and the UKVRecord constructor do not fail",
     "the OS does not alter bytes below the offset a process writes at",
 ]
-FLOORS = {"C02.R9": 1, "C02.R7": 1, "C02.R1": 2, "C02.R2": 1, "C02.R3": 5, "C02.R4": 6, "C02.R5": 1, "C02.R6": 4}
+FLOORS = {"C02.R10": 3, "C02.R11": 3, "C02.R9": 1, "C02.R7": 1, "C02.R1": 2, "C02.R2": 1, "C02.R3": 5, "C02.R4": 6, "C02.R5": 1, "C02.R6": 4}
 
 STATE = {"self._toc[]", "self._eof", "self._last"}
 STREAM_WRITES = {"self._stream.write", "self._stream.truncate", "self._pack_write", "self._stream.writelines"}
@@ -73,6 +73,21 @@ def run(chk):
     from . import c04
 
     chk.borrow("C02.R8", c04.r3_index_refresh, chk)
+    chk.call(r10_empty_value_is_a_value, chk)
+    # "the key listing is exactly the set of successfully put keys ... for 1..3 handles whose cached table of contents may be stale":
+    # every session refreshes the listing before its body runs (the ordering clause of C04.R3) and the refresh replaces the listing
+    # whatever it held before (C04.R8)
+    base = prog.cls(f"{BK}:CollectionBackendBase")
+    classes = [base] + prog.subclasses(base)
+    seen = set()
+    for ci in classes:
+        for sess, (kind, begin, end) in c04.SESSIONS.items():
+            f = prog.method(ci, sess)
+            if f is None or f.key in seen:
+                continue
+            seen.add(f.key)
+            chk.borrow("C02.R11", c04.session, chk, f, kind, begin, end, only=lambda o: o["construct"].endswith(":order"))
+    chk.borrow("C02.R11", c04.r8_listing_refresh, chk, classes)
 
 
 # ----------------------------------------------------------------------------
@@ -745,3 +760,90 @@ def r7_flush_progress(chk):
         chk.decide(ok, "C02.R7", key, f.where(wn[0].ast), "each item is dequeued before it is written (a failing write cannot wedge the queue)",
                    "a failing _write leaves the failed item (and everything behind it) in the queue: every later flush fails again on the same item, so keys the "
                    "collection already lists are never written")
+
+
+# ----------------------------------------------------------------------------
+def r10_empty_value_is_a_value(chk):
+    """get(k) returns exactly the bytes of the one successful put(k) - also when these are no bytes at all (the quantifier lists
+    empty values).  Along the getter chain Collection.__getitem__ -> backend.get -> _read -> UKVFile.get the bytes read are never
+    tested for truthiness or length: `if not value: raise KeyError`, `value or default`, `if len(value) == 0` turn a stored b"" into
+    a missing key (or into something else).  A test against None is not a test of the bytes."""
+    prog = chk.prog
+    coll = prog.cls("molli.storage.collection:Collection")
+    base = prog.cls(f"{BK}:CollectionBackendBase")
+    ukvb = prog.cls(f"{BK}:UkvCollectionBackend")
+    funcs = [prog.method(coll, "__getitem__"), prog.method(base, "get"), prog.method(ukvb, "_read"), prog.func(f"{UKV}:UKVFile.get")]
+    chk.require(all(f is not None for f in funcs), "a link of the getter chain (Collection.__getitem__, backend get / _read, UKVFile.get) vanished")
+    READS = ("self._backend.get", "self._read", "self._ukvfile.get", "self._stream.read")
+    for f in funcs:
+        chk.analysed(f)
+        # locals that hold the bytes read
+        vals = set()
+        grew = True
+        while grew:
+            grew = False
+            for t in walk_no_nested(f.node):
+                tg = None
+                if isinstance(t, ast.Assign) and len(t.targets) == 1 and isinstance(t.targets[0], ast.Name):
+                    tg, v = t.targets[0].id, t.value
+                elif isinstance(t, ast.NamedExpr) and isinstance(t.target, ast.Name):
+                    tg, v = t.target.id, t.value
+                if tg is None or tg in vals:
+                    continue
+                direct = isinstance(v, ast.Call) and (call_name(v) or "") in READS
+                alias = isinstance(v, ast.Name) and v.id in vals
+                if direct or alias:
+                    vals.add(tg)
+                    grew = True
+
+        def is_val(e):
+            return (isinstance(e, ast.Name) and e.id in vals) or (isinstance(e, ast.Call) and (call_name(e) or "") in READS) \
+                or (isinstance(e, ast.NamedExpr) and is_val(e.value))
+
+        def truth_test(e):
+            """does the boolean expression e look at the truthiness / length of the bytes?"""
+            if is_val(e):
+                return e
+            if isinstance(e, ast.UnaryOp) and isinstance(e.op, ast.Not):
+                return truth_test(e.operand)
+            if isinstance(e, ast.BoolOp):
+                for x in e.values:
+                    r = truth_test(x)
+                    if r is not None:
+                        return r
+                return None
+            if isinstance(e, ast.Compare):
+                sides = [e.left] + list(e.comparators)
+                if any(isinstance(o, (ast.Is, ast.IsNot)) for o in e.ops):
+                    return None
+                for x in sides:
+                    if is_val(x) and any(isinstance(y, ast.Constant) and y.value in (b"", "", 0) for y in sides):
+                        return e
+                    if isinstance(x, ast.Call) and (call_name(x) or "") == "len" and x.args and is_val(x.args[0]):
+                        return e
+                return None
+            if isinstance(e, ast.Call) and (call_name(e) or "") in ("bool", "len", "any", "all") and e.args and is_val(e.args[0]):
+                return e
+            return None
+
+        bad = None
+        for t in ast.walk(f.node):
+            test = None
+            if isinstance(t, (ast.If, ast.While, ast.IfExp, ast.Assert)):
+                test = t.test
+            elif isinstance(t, ast.BoolOp) and any(is_val(x) for x in t.values[:-1]):
+                bad = bad or t   # `value or default`
+                continue
+            elif isinstance(t, ast.comprehension):
+                for c in t.ifs:
+                    if truth_test(c) is not None:
+                        bad = bad or c
+                continue
+            if test is not None and truth_test(test) is not None:
+                bad = bad or t
+        key = f"{f.key}:bytes-read-are-returned-unfiltered"
+        if bad is not None:
+            chk.fail("C02.R10", key, f.where(bad), f"`{short(bad, 60)}` tests the truthiness / length of the bytes read: a key put with the empty value b\"\" is listed, "
+                     "but get() treats it as missing (or replaces it) - get(k) is not the bytes of the successful put(k)")
+        else:
+            chk.ok("C02.R10", key, f.where(), f"no test of the bytes read ({len(vals)} local(s) holding them)")
